@@ -31,8 +31,10 @@ ManualName ==
       \o "_rb" \o ToString(S.probs.rb \div 10000) \o "_lb" \o ToString(S.probs.lb \div 10000)
       \o "_tb" \o ToString(S.probs.tb \div 10000) \o "_"
       \o (IF MaxOfMatrix(S.board.moves) = 3 THEN "force_down" ELSE "") \o ".py"
+\* rewards over a common denominator: emitted reward / RScale = board numerator / rden
+ScaleRewards(G, k) == [G EXCEPT !.reward = [s \in DOMAIN G.reward |-> G.reward[s] * k]]
 ManualNameClauses ==
-    IF S.via # "manual" \/ ~(WholePct(S.probs.rb) /\ WholePct(S.probs.lb) /\ WholePct(S.probs.tb)) THEN {}
+    IF S.via # "manual" \/ S.board.rden # 1 \/ ~(WholePct(S.probs.rb) /\ WholePct(S.probs.lb) /\ WholePct(S.probs.tb)) THEN {}
     ELSE IF S.created = <<ManualName>> THEN {} ELSE {"C17.ManualName expected " \o ManualName}
 
 Loaded == S.loaderr = "" /\ S.keys = <<"game_a", "game_b", "game_c">>
@@ -42,7 +44,7 @@ CheckLoad ==
     /\ fails' = fails \cup (IF S.loaderr # "" THEN {"C11.Loads " \o S.loaderr}
                             ELSE IF S.keys # <<"game_a", "game_b", "game_c">> THEN {"C11.Loads keys"} ELSE {})
                       \cup ManualNameClauses
-    /\ step' = IF Loaded THEN 1 ELSE 4
+    /\ step' = IF Loaded /\ ~S.loadonly THEN 1 ELSE 4
     /\ UNCHANGED tid
 
 \* C11 shape clauses on one emitted game
@@ -73,7 +75,8 @@ CheckGame ==
                    THEN (IF S.exact[step] THEN {} ELSE {"C08.ProbExact game=" \o v})
                         \cup (IF ~S.raw[step].valid \/ ~WellFormed(g)
                               THEN {"C08.Bisimilar game=" \o v \o " (the emitted game is not even well-formed)"}
-                              ELSE IF Bisimilar(g, AbstractGame(S.board, v, S.probs)) THEN {}
+                              ELSE IF Bisimilar(ScaleRewards(g, S.board.rden),
+                                                ScaleRewards(AbstractGame(S.board, v, S.probs), RScale(g))) THEN {}
                               ELSE {"C08.Bisimilar game=" \o v})
                    ELSE {})
              \cup (IF Want \in {"C11", "both"}
